@@ -1,7 +1,7 @@
 (** Correspondence check for C18: one case = one shutdown scenario run on the real
     proxy.ListenAndServe* / proxy.Shutdown with wall-clock observables (milliseconds). *)
 From Coq Require Import List NArith Bool.
-From Fabio Require Import Lib.Verdict Model.Shutdown Proofs.Shutdown.
+From Fabio Require Import Lib.Verdict Model.Shutdown Proofs.Shutdown Model.ExitSignals.
 Import ListNotations.
 Local Open Scope N_scope.
 
@@ -17,13 +17,32 @@ Inductive obs :=
 | OCut (t : N)     (* the connection / stream was ended by the proxy at t without the answer *)
 | OOpen.           (* still open when the scenario was torn down *)
 
+(* what the client of one request of the real-main scripts saw *)
+Inductive pobs :=
+| PServed (t : N)     (* the complete answer at t *)
+| PCutAt (t : N)      (* connected, but the connection ended at t without the answer *)
+| PRefused            (* the connect was refused *)
+| POpen.              (* still waiting when the script was torn down *)
+(* how the fabio process ended *)
+Inductive pexit :=
+| XRunning            (* still alive when the script was torn down *)
+| XClean (t : N)      (* main() returned, status 0, at t *)
+| XKilled (t : N).    (* ended by a signal at t *)
+
 Inductive case :=
 | CScen (wait : N) (hist : list hop)   (* starts (with the configured listen addresses) and CloseProxy calls, in order *)
         (impl_T : option N)                  (* duration of proxy.Shutdown; None = not back within the hang cap *)
         (probe_at : N)
         (accepted_begin accepted_return : list bool)  (* per server: a connect after begin / after return succeeded *)
         (impl : list (list (list obs)))      (* per server, per leaf, per item *)
-        (lo hi : N).                         (* tolerances: measured >= model - lo, measured <= model + hi *)
+        (lo hi : N)                          (* tolerances: measured >= model - lo, measured <= model + hi *)
+(* fabio's real main() as a process of its own, driven by real signals: the script of signals sent
+   (arrival time, kind), the requests (connect time, time of the upstream's answer; each on a
+   connection of its own), the times of plain connects to the proxy and ui listeners; observed: how
+   and when the process ended, what each client saw, which connects succeeded.  Times in ms from
+   the origin of the script. *)
+| CSig (wait : N) (sigs : list event) (reqs : list req) (probes : list N)
+       (impl_exit : pexit) (impl_reqs : list pobs) (impl_probes : list bool) (lo hi : N).
 
 Definition near (lo hi m t : N) : bool := (m <=? t + lo) && (t <=? m + hi).
 
@@ -110,8 +129,82 @@ Definition in_region_hijacked (wait : N) (hist : list hop) : bool :=
                                       existsb (fun d => match d with Fin n => n + spec_margin <=? wait | Inf => false end)
                                               (lhijacked l)) (leaves s)) (history_servers hist).
 
+(* ---- real-main scripts ---- *)
+Definition qout_matches (lo hi : N) (m : qout) (o : pobs) : bool :=
+  match m, o with
+  | QRefused, PRefused => true
+  | QFate (Done d), PServed t => near lo hi d t
+  | QFate (Cut (Fin c)), PCutAt t => near lo hi c t
+  | QFate Never, POpen => true
+  | QFate (Cut Inf), POpen => true
+  | _, _ => false
+  end.
+
+(* the clean end may lag the model by net/http's idle poll when the proxy listener had requests
+   open, but not beyond the deadline (see [ret_matches]) *)
+Definition exit_matches (lo hi : N) (deadline : N) (busy : bool) (m : pend) (x : pexit) : bool :=
+  match m, x with
+  | ERunning, XRunning => true
+  | EClean (Fin T), XClean t =>
+      let upper := if busy then N.max T (N.min (T + http_poll) deadline) else T in
+      (T <=? t + lo) && (t <=? upper + hi)
+  | EKilled k, XKilled t => near lo hi k t
+  | _, _ => false
+  end.
+
+(* the property on the process's own observables, from the script alone: shutdown begins at the
+   first SIGINT/SIGTERM sent.  None sent: the process is still running, every finite request was
+   answered, every connect accepted (SIGHUP is ignored).  Otherwise: the process ended cleanly no
+   later than wait + slack after it; every request that was in flight then (connected at least the
+   margin before) and whose answer was due at least the margin before the end of the wait got its
+   complete answer, no later than the margin after the end of the process; every request / connect
+   attempted at least the margin after it was refused. *)
+Definition sig_spec (wait : N) (sigs : list event) (reqs : list req) (probes : list N)
+           (x : pexit) (os : list pobs) (acc : list bool) : bool :=
+  match find (fun e => is_term (snd e)) sigs with
+  | None =>
+      match x with XRunning => true | _ => false end
+      && all2 (fun q o => match q_end q, o with
+                          | Fin _, PServed _ => true
+                          | Inf, POpen => true
+                          | _, _ => false end) reqs os
+      && all2 (fun _ a => a) probes acc
+  | Some (t0, _) =>
+      match x with XClean T => T <=? t0 + wait + spec_slack wait | _ => false end
+      && all2 (fun q o =>
+                 if q_start q + spec_margin <=? t0 then
+                   match q_end q with
+                   | Fin n =>
+                       if n + spec_margin <=? t0 + wait then
+                         match o with
+                         | PServed t => match x with XClean T => t <=? T + spec_margin | _ => true end
+                         | _ => false
+                         end
+                       else true
+                   | Inf => true
+                   end
+                 else if t0 + spec_margin <=? q_start q then
+                   match o with PRefused => true | _ => false end
+                 else true) reqs os
+      && all2 (fun p a => if t0 + spec_margin <=? p then negb a else true) probes acc
+  end.
+
+Definition check_sig (wait : N) (sigs : list event) (reqs : list req) (probes : list N)
+           (x : pexit) (os : list pobs) (acc : list bool) (lo hi : N) : N :=
+  let work := main_work reqs in
+  let ph := listen_phase true wait work sigs in
+  let t0 := match drain_start ph with Some t0 => t0 | None => 0 end in
+  let busy := negb (match litems (proxy_leaf reqs t0) with [] => true | _ => false end) in
+  let same :=
+    exit_matches lo hi (t0 + wait) busy (phase_end wait work ph) x
+    && all2 (fun q o => qout_matches lo hi (req_outcome_in wait reqs ph q) o) reqs os
+    && all2 (fun p a => Bool.eqb (proc_accepts wait work ph p) a) probes acc in
+  verdict same (sig_spec wait sigs reqs probes x os acc) None
+          (negb (match sigs with [] => true | _ => false end)).
+
 Definition check_case (c : case) : N :=
   match c with
+  | CSig wait sigs reqs probes x os acc lo hi => check_sig wait sigs reqs probes x os acc lo hi
   | CScen wait hist impl_T probe_at acc1 acc2 impl lo hi =>
       let srvs := history_servers hist in
       let rs := run_history grpc_prog key_configured wait hist in
